@@ -101,24 +101,24 @@ func FlattenProperties(it Item) Item {
 		return nil
 	}
 	typ := it.GetType()
-	if IntransitiveActivityTypes.Contains(typ) {
+	if typ == IntransitiveActivityType || IntransitiveActivityTypes.Contains(typ) {
 		_ = OnIntransitiveActivity(it, func(a *IntransitiveActivity) error {
 			FlattenIntransitiveActivityProperties(a)
 			return nil
 		})
-	} else if ActivityTypes.Contains(typ) {
+	} else if typ == ActivityType || ActivityTypes.Contains(typ) {
 		_ = OnActivity(it, func(a *Activity) error {
 			FlattenActivityProperties(a)
 			return nil
 		})
 	}
-	if ActorTypes.Contains(typ) {
+	if typ == ActorType || ActorTypes.Contains(typ) {
 		OnActor(it, func(a *Actor) error {
 			FlattenActorProperties(a)
 			return nil
 		})
 	}
-	if ObjectTypes.Contains(typ) {
+	if typ == "" || typ == ObjectType || ObjectTypes.Contains(typ) {
 		OnObject(it, func(o *Object) error {
 			FlattenObjectProperties(o)
 			return nil
